@@ -2,5 +2,5 @@ SPECIFICATION GSpec
 CONSTANTS
  Base = 256
  WordLen = 8
-INVARIANTS GenOK GenPrint
+INVARIANTS GenOK
 CHECK_DEADLOCK FALSE
